@@ -69,11 +69,14 @@ P('C04', ['tick.leader', 'tick.not-leader', 'msg.next_node_idx', 'msg.append_ent
   'Cross-node finality ("never differs on any node") is ' + A_RAFT + '.',
   lemmas=['FRAME-C04'], assumptions=[A_RAFT, 'R_AE'])
 
-P('C06', ['loadDumpFile', 'msg.append_entries'],
+P('C06', ['loadDumpFile', 'msg.append_entries', 'tryLogCompaction', 'serializer.serialize', 'serializer.checkSerializing',
+          'serializer.setTransmissionData.file', 'ResizableFile.write', 'FileJournal.add', 'FileJournal.clear', 'FileJournal.deleteEntriesFrom',
+          'FileJournal.deleteEntriesTo', 'FileJournal.reopen'],
   'Start-up/compaction side of durability as contracts: the follower acknowledges only after the journal append (O6.1, ghost event '
   'order on the real handler); loading a dump on start-up keeps every journal entry after the dump position (O6.3).',
   'What the journal file holds after a kill is C08 (FileJournal contracts, crash conditions). Start-up region of __init__ and the '
   'compaction ordering O6.4 are covered by the C08/C09 units where built; journal-without-dump (D9) is a known finding.',
+  modules=SO_MODS + ['contracts.ser_units', 'contracts.journal_units'],
   assumptions=['T-RENAME, T-MMAP (via C08)', 'kill = process kill, not power loss'])
 
 P('C10', ['changeCluster', 'doChangeCluster', 'checkCommandsToApply.membership', 'loadDumpFile', 'doApplyCommand', 'msg.response_vote'],
@@ -132,13 +135,19 @@ P('C20', ['tick.leader', 'tick.not-leader', 'hasQuorum', 'msg.next_node_idx', 's
   'R9/R10 plus ' + A_RAFT + '.',
   lemmas=['FRAME-C20'], assumptions=[])
 
+from contracts import ser_units as _su   # noqa
+LEMMAS['L-CHUNK'] = _su.lemma_chunk
 PROPS['C09'] = None
-P('C09', ['loadDumpFile', 'sendAppendEntries', 'msg.append_entries'],
+P('C09', ['loadDumpFile', 'sendAppendEntries', 'msg.append_entries', 'serializer.getTransmissionData', 'serializer.setTransmissionData',
+          'serializer.setTransmissionData.none', 'serializer.setTransmissionData.file', 'serializer.serialize', 'serializer.checkSerializing',
+          'tryLogCompaction'],
   'Snapshot load restores attributes, journal head, applied index, member set and the name table for the restored version (O9.4); the '
   'leader resets nextIndex to the entry after the snapshot point and sends snapshots only to followers behind the journal start '
   '(O9.6); a partial snapshot chunk changes neither journal nor commit index.',
-  'Serializer (modes, tmp+rename, chunk protocol) contracts are listed per unit where built; T-PICKLE/T-GZIP/T-FORK/T-RENAME are trusted.',
-  assumptions=['A-DUMP', 'A-ATTRS'])
+  'Serializer contracts: chunk sender/receiver (O9.5) with lemma L-CHUNK, serialize per mode with the file discipline "write tmp, then '
+  'atomic rename, dump path never opened for writing" (O9.2), checkSerializing state machine (O9.3). T-PICKLE/T-GZIP/T-FORK/T-RENAME/'
+  'T-FILE are trusted. The choice of the snapshot point in __tryLogCompaction (O9.1) is covered where unit tryLogCompaction is built.',
+  lemmas=['L-CHUNK'], modules=SO_MODS + ['contracts.ser_units'], assumptions=['A-DUMP', 'A-ATTRS'])
 
 # ---------------------------------------------------------------------------------------------------------- lemmas
 
@@ -213,6 +222,20 @@ P('C08', ['ResizableFile.write', 'ResizableFile.read', 'FileJournal.add', 'FileJ
   'deleteEntriesTo is not kill-safe (known finding D8). File opening in ResizableFile.__init__/MetaStorer is not under contract.',
   modules=['contracts.journal_units'], trusted=['T-STRUCT', 'T-MMAP', 'T-RENAME'],
   assumptions=['A-RANGE', 'A-HDR-ATOMIC', 'kill = process kill, not power loss'])
+
+from contracts import tcp_units as _tu   # noqa
+LEMMAS['L-STREAM'] = _tu.lemma_stream
+P('C13', ['tcp.parse', 'tcp.send', 'tcp.processSend', 'tcp.processRead', 'tcp.readloop', 'tcp.disconnect'],
+  'Contracts on the real TcpConnection methods over byte windows of unbounded size: send appends exactly frame(m) (O13.1); '
+  '__processSend keeps "bytes handed to the socket ++ remaining buffer" equal to the old buffer for every socket result (O13.2); '
+  '__processRead appends exactly what recv returned (O13.3); __processParseMessage returns None on a short/incomplete frame leaving '
+  'the buffer alone, delivers a complete valid frame consuming exactly 4+l bytes, and disconnects on a negative length or invalid '
+  'payload without raising (O13.4); the read loop hands each parsed message to the callback once, in order (O13.5). Lemma '
+  'L-STREAM: a buffer that starts with frame(m) parses to m.',
+  'Encrypted transport not verified (cryptography absent, encryptor None). T-SOCKET, T-ZLIB, T-PICKLE, T-STRUCT trusted; the native '
+  '"i" format is little-endian 32 bit on this platform. The induction over a whole message sequence is stated, its step is L-STREAM.',
+  lemmas=['L-STREAM'], modules=['contracts.tcp_units'], trusted=['T-SOCKET', 'T-ZLIB', 'T-PICKLE', 'T-STRUCT'],
+  assumptions=['no-crypto', 'A-RANGE: frame length < 2^31', 'messages are not None (None means "no message" in the parse loop)'])
 
 NOT_BUILT.update({
     'C07': 'term and vote are not persisted by the code at all (syncobj.py __init__ assigns 0/None, .meta holds only the commit index): the '
